@@ -9,7 +9,7 @@
 pub struct VecMap<K, V> { pub items: Vec<(K, V)> }
 impl<K: PartialEq, V> Default for VecMap<K, V> { fn default() -> Self { VecMap { items: Vec::new() } } }
 impl<K: PartialEq, V> VecMap<K, V> {
-    pub fn new() -> Self { VecMap { items: Vec::new() } }
+    pub fn new() -> Self { VecMap { items: Vec::with_capacity(8) } } // no realloc for <= 8 entries (CBMC loses precision across realloc copies)
     pub fn insert(&mut self, k: K, v: V) -> Option<V> {
         let mut i = 0;
         while i < self.items.len() {
@@ -61,7 +61,7 @@ impl<'a, K: PartialEq, V> IntoIterator for &'a VecMap<K, V> {
 #[derive(Clone, Debug, PartialEq, Default)]
 pub struct VecSet<T> { pub items: Vec<T> }
 impl<T: PartialEq> VecSet<T> {
-    pub fn new() -> Self { VecSet { items: Vec::new() } }
+    pub fn new() -> Self { VecSet { items: Vec::with_capacity(8) } }
     pub fn insert(&mut self, v: T) -> bool {
         let mut i = 0;
         while i < self.items.len() { if self.items[i] == v { return false; } i += 1; }
